@@ -506,6 +506,9 @@ using std::decay_t;
 template<class In, class Out, std::size_t D = In::rank_v>
 auto dft(std::array<bool, +D> which, In const& in, Out&& out, sign dir)
 	-> decltype(plan{which, in.base(), in.layout(), out.base(), out.layout(), dir}.execute(in.base(), out.base()), std::forward<Out>(out)) {
+	if(in.num_elements() == 0) {  // nothing to transform; FFTW returns a null plan for an empty transform dimension
+		return std::forward<Out>(out);
+	}
 	return plan{which, in.base(), in.layout(), out.base(), out.layout(), dir}.execute(in.base(), out.base()), std::forward<Out>(out);
 }
 
